@@ -48,8 +48,15 @@ def main():
         m = json.load(open(d))
         k = os.path.basename(os.path.dirname(d))
         c = m["caught_by"]
+        builder = str(m.get("source", "")).startswith("builder")
         if k == "C11-1":
             st = "made harmless by a repair"
+        elif builder and c.startswith("MISSED"):
+            st = "builder mutation (round 4): missed by the previous version, caught after the sweep"
+        elif builder:
+            st = "builder mutation (round 4): caught"
+        elif c.startswith("MISSED by the version before round 4"):
+            st = "missed in round 4, caught after strengthening"
         elif c.startswith("MISSED by the version before round 3"):
             st = "missed in round 3, caught after strengthening"
         elif c.startswith("MISSED by the version before round 2"):
@@ -60,8 +67,8 @@ def main():
             st = "correspondence only"
         else:
             st = "caught"
-        rows.append((k, m["needs"], st, re.sub(r"^MISSED by the (?:first version|version before round [23])(?: \((.*?)\))?; ", lambda m: "missed at first" + (f" ({m.group(1)})" if m.group(1) else "") + "; ", c)))
-    out.append("### 9.5 Seeded changes (independent sub-agents, property text only) and which checks catch them\n")
+        rows.append((k, m["needs"], st, re.sub(r"^MISSED by the (?:first version|version before round [234])(?: \((.*?)\))?; ", lambda m: "missed at first" + (f" ({m.group(1)})" if m.group(1) else "") + "; ", c)))
+    out.append("### 9.5 Seeded changes (independent sub-agents, property text only; plus the builders' own mutations of round 4) and which checks catch them\n")
     out.append("Each directory `seeded/<id>-<n>/` holds `patch.diff`, `demo.py` (exit 0 on the clean tree, non-zero on the patched tree - confirmed "
                "by `harness/run_seeded.sh`, which applies the patch to a scratch worktree of `/repo`'s HEAD, runs the demo on both trees and runs "
                "the check with `VERIF_REPO=<patched tree>`; the 84 pinned tests pass with each patch) and `meta.json`.\n")
@@ -86,7 +93,14 @@ def main():
                "C05; integer data, far-from-origin likelihood and reuse on another length in C07; near-coincident ensembles in C08; the "
                "exchange observed through Calibrator.calibrate in C10; faults raised by the built-in samplers themselves in C11; a reassigned "
                "pass budget in C12; exact powers as the last index and rejected requests in C13; float32 arrays and spaces beyond 2^63 points in "
-               "C15; mixed integer / fractional grids in C17; concurrent re-evaluation in C20. The lesson repeated across them: generators must include the boundary of "
+               "C15; mixed integer / fractional grids in C17; concurrent re-evaluation in C20. Round 4 turned that lesson into a systematic "
+               "*generator sweep* (`harness/seed_templates/SWEEP.md`): for every check a builder went through seven dimensions - representation "
+               "of inputs (dtype, container, layout, read-only), object reuse, attributes reassigned after construction, sizes at thresholds, "
+               "non-default configuration, sequences with a rejected / failing call, almost-equivalent numerics - extended the generators where "
+               "the property's quantifier covers the dimension, wrote its own mutations (`seeded/Cxx-m*`, marked not independent) and measured "
+               "how many the previous version missed (typically 6-9 of 10-14); the sweep also surfaced further genuine defects of `/repo` "
+               "(§9.4). A fourth round of independent seeds (input handling / life-cycle / thresholds and numerics) was then run against the "
+               "swept checks. The lesson repeated across them: generators must include the boundary of "
                "*representation* (signed zero, exact zero, dtype, array rank, buffer size) and *object reuse* (the same loss / sampler / folder used "
                "twice), not only the boundary of the mathematical domain.\n")
 
